@@ -117,6 +117,16 @@ func genBV2Corpus(r *Rng, n int, w *bufio.Writer) {
 			Outs: []bvOut{{Asset: 0, Value: 900, Blind: true}, {Asset: 1, Value: 20, Blind: true, BlinderIdx: 1},
 				{Asset: 1, Value: 30, Blind: true, BlinderIdx: 1}, {Asset: 0, Value: 100, Fee: true}},
 			Parties: []bvParty{{Ctor: 0, Own: []uint32{0}, Outs: []uint32{0}}, {Ctor: 0, Own: []uint32{1}, Outs: []uint32{1, 2}, Fail: []uint32{1}}}},
+		// a packet without the blinded-issuance flag field: new issuance with token, blinded in the same call, token output explicit
+		&bvShape{Seed: 21,
+			Ins:     []bvIn{{Conf: true, Asset: 0, Value: 1000, Iss: 1, IssValue: 70, IssToken: 2, IssNoFlag: true}},
+			Outs:    []bvOut{{Asset: 0, Value: 900, Blind: true}, {Asset: 100, Value: 70, Blind: true}, {Asset: 200, Value: 2}, {Asset: 0, Value: 100, Fee: true}},
+			Parties: []bvParty{{Ctor: 0, Own: []uint32{0}, Outs: []uint32{0, 1}, Iss: []uint32{0}}}},
+		// the same with the token output blinded as well
+		&bvShape{Seed: 22,
+			Ins:     []bvIn{{Conf: true, Asset: 0, Value: 1000, Iss: 1, IssValue: 70, IssToken: 2, IssNoFlag: true}},
+			Outs:    []bvOut{{Asset: 0, Value: 900, Blind: true}, {Asset: 100, Value: 70, Blind: true}, {Asset: 200, Value: 2, Blind: true}, {Asset: 0, Value: 100, Fee: true}},
+			Parties: []bvParty{{Ctor: 0, Own: []uint32{0}, Outs: []uint32{0, 1, 2}, Iss: []uint32{0}}}},
 	}
 	bvGenParallel(len(shapes), func(i int) string { return bvV2CaseLine(shapes[i]) }, w)
 }
@@ -146,6 +156,16 @@ func genBV0Corpus(r *Rng, n int, w *bufio.Writer) {
 			Ins:  []bvIn{{Conf: true, Asset: 0, Value: 1000}},
 			Outs: []bvOut{{Asset: 0, Value: 300}, {Asset: 0, Value: 600, Blind: true}, {Asset: 0, Value: 100, Fee: true}},
 			Sel:  []int{1}},
+		// new issuance with token amount, issuance keys carrying the asset key only (refused)
+		&bvShape{Seed: 35, IssKeys: true, NoTokKey: true,
+			Ins:  []bvIn{{Conf: true, Asset: 0, Value: 1000, Iss: 1, IssValue: 70, IssToken: 2}},
+			Outs: []bvOut{{Asset: 0, Value: 900, Blind: true}, {Asset: 100, Value: 70, Blind: true}, {Asset: 200, Value: 2, Blind: true}, {Asset: 0, Value: 100, Fee: true}},
+			Sel:  []int{0, 1, 2}},
+		// asset key only is enough when there is no token amount
+		&bvShape{Seed: 36, IssKeys: true, NoTokKey: true,
+			Ins:  []bvIn{{Conf: true, Asset: 0, Value: 1000, Iss: 1, IssValue: 70, IssToken: 0}},
+			Outs: []bvOut{{Asset: 0, Value: 900, Blind: true}, {Asset: 100, Value: 70, Blind: true}, {Asset: 0, Value: 100, Fee: true}},
+			Sel:  []int{0, 1}},
 	}
 	bvGenParallel(len(shapes), func(i int) string { return bvV0CaseLine(shapes[i]) }, w)
 }
